@@ -18,11 +18,11 @@ RULE = (
     "(a) operations run(A) nonparametric / run(B) gaussian / run(C) bootstrap with cross-validated lambda / run(D) nonparametric with the outlier models enabled / run(F) the request of D without outlier models on another baseline file, summary(), fresh-client, perturb-globals "
     "(advance numpy's and random's global generators, reorder warnings.filters, touch DEFAULT_AGGREGATES), with argument objects (baseline frame, feed "
     "frame, config dict, parameter dict, lists) shared between calls or copied: every history up to depth D (8+64+512 at D=3) explored breadth-first "
-    "per first operation; invariant: every run(X)/summary() returns tables bit-identical to the reference for X. (a') for run(E) and run(G) (bootstrap with an imposed contest correlation), which are not BFS operations: the histories [X], [perturb,X], [X,X], [X,perturb,X], [X,fresh,perturb,X] and [Y,X] for every BFS run Y. (b) the references (plus run(E): gaussian on a single configured state, whose state has its own calibration model) are reproduced in "
+    "per first operation; invariant: every run(X)/summary() returns tables bit-identical to the reference for X. (a') for run(E), run(G) (bootstrap with an imposed contest correlation), run(H) / run(I) (bootstrap / nonparametric with the parameter argument omitted), which are not BFS operations: the histories [X], [perturb,X], [X,X], [X,perturb,X], [X,fresh,perturb,X], [Y,X] for every other run Y and [Y,fresh,X] for the non-BFS ones. (b) the references (plus run(E): gaussian on a single configured state, whose state has its own calibration model) are reproduced in "
     "fresh interpreters with PYTHONHASHSEED in {0,1,2,12345}, twice each, including the historical client, and must all agree. (c) changing the seed "
     "setting changes some cell for every estimator. non-trivial = the history contains at least two operations"
 )
-ASSUMPTIONS = ["process state is reset before each replay (numpy/random global state, warnings.filters, DEFAULT_AGGREGATES); truly fresh interpreters are covered by (b)"]
+ASSUMPTIONS = ["process state is reset before each replay (numpy/random global state, warnings.filters, DEFAULT_AGGREGATES, the mutable default-argument objects of the public entry points); truly fresh interpreters are covered by (b)"]
 OPS = ["run:A", "run:B", "run:C", "run:D", "run:F", "summary", "fresh", "perturb"]
 # E is not a BFS operation (it would only widen the search); it is part of the interpreter matrix and the seed variation
 SELFCHECK_INDEX = 0
@@ -40,9 +40,13 @@ ARGSETS = {
     "F": dict(pi_method="nonparametric", estimands=["turnout"], alphas=[0.7], aggregates=["postal_code", "unit"], features=[], model_parameters={}, alt=True),
     # G: bootstrap with an imposed correlation between the two contests (documented, rarely used parameter: another sampling branch)
     "G": dict(pi_method="bootstrap", estimands=["margin"], alphas=[0.9], aggregates=["postal_code", "unit"], features=["baseline_normalized_margin"], model_parameters={"B": 20, "contest_correlations": [[["AA", "BB"], 0.5]]}),
+    # H, I: the parameter argument is omitted altogether (bootstrap / nonparametric): the library's default object is shared
+    # by every call in the process
+    "H": dict(pi_method="bootstrap", estimands=["margin"], alphas=[0.9], aggregates=["postal_code", "unit"], features=["baseline_normalized_margin"], model_parameters={}, omit_params=True),
+    "I": dict(pi_method="nonparametric", estimands=["turnout"], alphas=[0.7], aggregates=["postal_code", "unit"], features=[], model_parameters={}, omit_params=True),
 }
 # argument sets that are not BFS operations get a fixed family of short histories instead (kind 'offbfs')
-OFF_BFS = ["E", "G"]
+OFF_BFS = ["E", "G", "H", "I"]
 
 
 def bounds(tier):
@@ -132,6 +136,13 @@ def call_run(client, args, name, shared):
     else:
         baseline, feed, raw = args["baseline"].copy(deep=True), args["feed"].copy(deep=True), copy.deepcopy(args["raw_config"])
         est, alphas, aggs, feats, mp, fe = list(a["estimands"]), list(a["alphas"]), list(a["aggregates"]), list(a["features"]), copy.deepcopy(a["model_parameters"]), copy.deepcopy(a.get("fixed_effects", {}))
+    if a.get("omit_params"):
+        # the caller does not pass model_parameters at all: the library's own default argument is in force
+        res = client.get_estimates(
+            feed, E.ELECTION_ID, "G", est, prediction_intervals=alphas, percent_reporting_threshold=100, geographic_unit_type="precinct", raw_config=raw,
+            preprocessed_data=baseline, features=feats, aggregates=aggs, fixed_effects=fe, pi_method=a["pi_method"], save_output=[],
+        )
+        return {k: E.table_to_obj(v) for k, v in res.items()}
     mp.setdefault("fit_margin_outlier_model", False)
     mp.setdefault("fit_turnout_outlier_model", False)
     res = client.get_estimates(
@@ -150,6 +161,18 @@ _WORLD = None
 _REFS = None
 
 
+def _mutable_defaults():
+    """the mutable default-argument objects of the public entry points: they live as long as the process"""
+    from elexmodel.client import HistoricalModelClient, ModelClient
+
+    out = []
+    for fn in (ModelClient.get_estimates, HistoricalModelClient.get_historical_evaluation, ModelClient.get_national_summary_votes_estimates):
+        for d in list(fn.__defaults__ or ()) + list((fn.__kwdefaults__ or {}).values()):
+            if isinstance(d, (dict, list, set)):
+                out.append(d)
+    return out
+
+
 def _snapshot_world():
     import random
     import warnings
@@ -158,7 +181,8 @@ def _snapshot_world():
 
     from elexmodel.utils import constants
 
-    return {"np": np.random.get_state(), "py": random.getstate(), "filters": list(warnings.filters), "agg_keys": list(constants.DEFAULT_AGGREGATES.keys())}
+    return {"np": np.random.get_state(), "py": random.getstate(), "filters": list(warnings.filters), "agg_keys": list(constants.DEFAULT_AGGREGATES.keys()),
+            "defaults": [copy.deepcopy(d) for d in _mutable_defaults()]}
 
 
 def _reset_world():
@@ -175,6 +199,14 @@ def _reset_world():
     for k in list(constants.DEFAULT_AGGREGATES.keys()):
         if k not in _WORLD["agg_keys"]:
             del constants.DEFAULT_AGGREGATES[k]
+    for d, d0 in zip(_mutable_defaults(), _WORLD["defaults"]):
+        d.clear()
+        if isinstance(d, dict):
+            d.update(copy.deepcopy(d0))
+        elif isinstance(d, list):
+            d.extend(copy.deepcopy(d0))
+        else:
+            d.update(copy.deepcopy(d0))
 
 
 def _perturb():
@@ -244,6 +276,7 @@ def _fingerprint(client, args, last_model_name):
             sha(np.random.get_state()[1][:8].tolist() + [np.random.get_state()[2]]),
             sha(str(random.getstate()[1][:4])),
             sorted(constants.DEFAULT_AGGREGATES.keys()),
+            json.dumps([sorted(map(str, d.items())) if isinstance(d, dict) else sorted(map(str, d)) for d in _mutable_defaults()]),
             sha([str(f[:3]) for f in __import__("warnings").filters]),
         ]
     )
@@ -416,6 +449,8 @@ def _seedvar_case(case, cov, viol):
 
     refs = references(case["seed"])
     for name in ARGSETS:
+        if ARGSETS[name].get("omit_params"):
+            continue  # no parameter argument, hence no seed setting to vary
         _reset_world()
         args = make_args(case["seed"])
         args[name]["model_parameters"]["seed"] = 977
@@ -441,7 +476,7 @@ def evaluate(case):
     elif case["kind"] == "offbfs":
         refs = references(case["seed"])
         x = "run:" + case["name"]
-        hists = [[x], ["perturb", x], [x, x], [x, "perturb", x], [x, "fresh", "perturb", x]] + [[y, x] for y in OPS if y.startswith("run:")]
+        hists = [[x], ["perturb", x], [x, x], [x, "perturb", x], [x, "fresh", "perturb", x]] + [[y, x] for y in OPS if y.startswith("run:")] + [["run:" + o, x] for o in OFF_BFS if o != case["name"]] + [["run:" + o, "fresh", x] for o in OFF_BFS if o != case["name"]]
         t = 0
         for h in hists:
             _, tr = _replay(h, case["shared"], case["seed"], refs, viol, cov, check_from=0)
@@ -475,4 +510,4 @@ def post(cases, results, tier, seed):
     return {"violations": viols, "cov": dict(cov)}
 
 
-REQUIRED_COUNTERS = {"runs_compared": 100, "summaries_compared": 5, "bfs_states": 50, "fresh_interpreters": 8, "interpreter_pairs_compared": 7, "seed_variations": 3, "off_bfs_histories": 30}
+REQUIRED_COUNTERS = {"runs_compared": 100, "summaries_compared": 5, "bfs_states": 50, "fresh_interpreters": 8, "interpreter_pairs_compared": 7, "seed_variations": 3, "off_bfs_histories": 100}
